@@ -18,7 +18,8 @@ def case_from_replay(rp, insts):
     cs = rp['case']
     for inst in insts:
         if G.line_prefix(inst) + ' ' == cs['line'][:len(G.line_prefix(inst)) + 1] and G.line_prefix(inst).split() == cs['line'].split()[:len(G.line_prefix(inst).split())]:
-            c = F.Case(inst, cs['extents'], strides=cs.get('strides'), pv=cs.get('padding'), stream='replay')
+            c = F.Case(inst, cs['extents'], strides=cs.get('strides'), pv=cs.get('padding'), stream=cs.get('stream') or 'replay')      # the stream selects the analysis (default-ctor cases)
+            c.pt = cs.get('padding_argument_type')
             c.ops = [(o, a) for o, a in rp['ops']]
             idx = [a for o, a in c.ops if o == 'off']
             c.idx_complete = len(idx) == C.prod(cs['extents']) and len(cs['extents']) > 0
